@@ -858,7 +858,12 @@ fn check_all_encodings(
 					);
 				}
 			}
-			Ok(Err(msg)) => out.fail(format!("c08:{}:codec-error-2nd", e.family()), format!("{}: {}", e.name(), msg)),
+			Ok(Err(msg)) => {
+				// the same 100 000-byte read cap as in the first round trip (an encrypted payload varies by a few bytes
+				// between two encryptions of the same slate, so only the second one may cross the cap)
+				let sig = if msg.contains("[payload>100k]") { "c08:slatepack:large-payload-unreadable".to_string() } else { format!("c08:{}:codec-error-2nd", e.family()) };
+				out.fail(sig, format!("{}: {}", e.name(), msg))
+			}
 			Err(f) => out.fails.push(f),
 		}
 	}
